@@ -4,6 +4,8 @@ import (
 	"fmt"
 	"strings"
 
+	"github.com/go-openapi/swag"
+
 	"verif/harness/internal/rng"
 )
 
@@ -108,14 +110,8 @@ type Spec struct {
 
 func i64(v int64) *int64 { return &v }
 
-func goName(n string) string {
-	parts := strings.FieldsFunc(n, func(r rune) bool { return r == '-' || r == '_' })
-	out := ""
-	for _, p := range parts {
-		out += strings.ToUpper(p[:1]) + p[1:]
-	}
-	return out
-}
+// goName: the field name the generator gives a parameter (the naming itself is the subject of C01/C08, not of this harness)
+func goName(n string) string { return swag.ToGoName(n) }
 
 func (p *PSpec) json(isHeader bool) map[string]interface{} {
 	m := map[string]interface{}{"type": p.Type}
@@ -614,7 +610,10 @@ func (g *gen) spec(nops int, variant int) *Spec {
 			op.Params = append(op.Params, g.param("query", fmt.Sprintf("q%d", j)))
 		}
 		if g.r.Chance(1, 2) {
-			op.Params = append(op.Params, g.param("header", "X-H"))
+			// header names as specs write them: net/http canonicalises what arrives, the spec's spelling need not be canonical
+			hn := g.r.Pick([]string{"X-H", "X-Request-ID", "x-lower-case", "X-H", "X-RATE-Limit"})
+			g.hit("header-name:" + hn)
+			op.Params = append(op.Params, g.param("header", hn))
 		}
 		if op.Method != "get" && op.Method != "delete" {
 			switch g.r.Intn(3) {
